@@ -127,6 +127,59 @@ func (P *Program) nativeRewrites() (map[string][]byte, []string) {
 		}
 		edits[file] = append(edits[file], bodyEdit{P.fset.Position(decl.Body.Lbrace).Offset, P.fset.Position(decl.Body.Rbrace).Offset + 1, body})
 	}
+	// call-site replacements of external functions (//verif:replace-call)
+	for _, r := range P.callRepl {
+		dot := strings.LastIndex(r.from, ".")
+		if dot < 0 {
+			continue
+		}
+		pkgPath, fname := r.from[:dot], r.from[dot+1:]
+		for _, p := range P.pkgs {
+			if p.Types != r.pkg.Pkg {
+				continue
+			}
+			for j, f := range p.Syntax {
+				file := p.CompiledGoFiles[j]
+				if _, isOverlay := P.overlay[file]; isOverlay {
+					continue
+				}
+				local := ""
+				for _, im := range f.Imports {
+					if strings.Trim(im.Path.Value, "\"") == pkgPath {
+						local = pkgPath[strings.LastIndex(pkgPath, "/")+1:]
+						if im.Name != nil {
+							local = im.Name.Name
+						}
+					}
+				}
+				if local == "" {
+					continue
+				}
+				found := false
+				ast.Inspect(f, func(n ast.Node) bool {
+					ce, ok := n.(*ast.CallExpr)
+					if !ok {
+						return true
+					}
+					se, ok := ce.Fun.(*ast.SelectorExpr)
+					if !ok {
+						return true
+					}
+					id, ok := se.X.(*ast.Ident)
+					if !ok || id.Name != local || se.Sel.Name != fname {
+						return true
+					}
+					edits[file] = append(edits[file], bodyEdit{P.fset.Position(se.Pos()).Offset, P.fset.Position(se.End()).Offset, r.target.Name()})
+					found = true
+					return true
+				})
+				if found {
+					// keep the import used
+					edits[file] = append(edits[file], bodyEdit{P.fset.Position(f.End()).Offset, P.fset.Position(f.End()).Offset, "\nvar _ = " + local + "." + fname + "\n"})
+				}
+			}
+		}
+	}
 	out := map[string][]byte{}
 	for file, es := range edits {
 		src, err := os.ReadFile(file)
@@ -137,8 +190,8 @@ func (P *Program) nativeRewrites() (map[string][]byte, []string) {
 		for _, e := range es {
 			src = append(append(append([]byte{}, src[:e.start]...), []byte(e.text)...), src[e.end:]...)
 		}
-		// imports that became unused would break the build: keep them alive
-		out[file] = src
+		// imports that became unused would break the build: make them blank
+		out[file] = blankUnusedImports(src, importNamesOf(P, file))
 	}
 	return out, notes
 }
